@@ -119,8 +119,37 @@ def bounded_enumeration(reg, tier, seed):
                 fail(f"QuantizedNumPyArray[{lo},{hi}]: end points/monotonicity", {"lower": lo, "upper": hi}, "numpy/endpoints")
     except ImportError:
         pass
+    # quantised vectors as they are actually used: wrapped in the packed-quaternion adapter (the W component is dropped on the wire
+    # in the three-component form, carried in the four-component one). Integers in, the same integers out - for every triple /
+    # quadruple, including those whose vector part is longer than a unit quaternion's
+    import struct as _st
+    import itertools as _it
+    quat_specs = [("PackedQuat(Vector3U16(-1,1))", se.PackedQuat(se.Vector3U16(-1.0, 1.0)), "<3H", 65535),
+                  ("PackedQuat(Vector3U16(-5,5))", se.PackedQuat(se.Vector3U16(-5.0, 5.0)), "<3H", 65535),
+                  ("PackedQuat(Vector4U16(-1,1))", se.PackedQuat(se.Vector4U16(-1.0, 1.0)), "<4H", 65535),
+                  ("PackedQuat(Vector4U8(-1,1))", se.PackedQuat(se.Vector4U8(-1.0, 1.0)), "<4B", 255)]
+    for qname, qspec, fmt, top in quat_specs:
+        n_el = int(fmt[1])
+        corner = [0, 1, top // 2, top // 2 + 1, top - 1, top]
+        tuples = list(_it.product(corner, repeat=n_el)) + [tuple(rng.randint(0, top) for _ in range(n_el)) for _ in range(300 if tier == "quick" else 20000)]
+        seen.add(qname)
+        for raw in tuples:
+            evals += 1
+            blob = _st.pack(fmt, *raw)
+            try:
+                val = se.BufferReader("<", blob).read(qspec)
+                w = se.BufferWriter("<")
+                w.write(qspec, val)
+                back = w.copy_buffer()
+            except Exception as ex:  # noqa
+                fail(f"{qname}: wire integers {raw} raised {type(ex).__name__}: {ex}", {"spec": qname, "raw": list(raw)}, "packedquat/roundtrip")
+                break
+            if bytes(back) != blob:
+                fail(f"{qname}: wire integers {raw} decode to {tuple(val)} and re-encode to {_st.unpack(fmt, bytes(back))}", {"spec": qname, "raw": list(raw)},
+                     "packedquat/roundtrip")
+                break
     return {"name": "quantized-enumeration", "evaluations": evals, "distinct_nontrivial": len(seen), "exhaustive": True,
             "rule": "every raw value of the wire type of every live QuantizedFloat/PackedTERotation/FixedPoint instance (complete); "
-                    f"QuantizedTime over {len(durations)} durations x raws (step {step}); numpy variant over all 65536 raws; "
+                    f"QuantizedTime over {len(durations)} durations x raws (step {step}); numpy variant over all 65536 raws; packed-quaternion wrappers over corner and random tuples; "
                     "distinct = distinct instances / durations", "bounded": True,
             "bounds": {"instances": len(seen), "time_raw_step": step}, "samples": samples, "failures": failures}
